@@ -49,7 +49,7 @@ func C13(c *vlib.Ctx) {
 		for s := 0; s < seqs; s++ {
 			r := vlib.Derive(c.Seed, "C13", ci, s)
 			g := storecheck.GenCfg{NIDs: r.Range(6, 24), Routes: stdRoutes, Targets: stdTargets, ForcedOnly: true,
-				OutOfOrder: r.Chance(0.4), Ties: r.Chance(0.4), PaddedLeases: true, Aux: true, Weights: w}
+				OutOfOrder: r.Chance(0.4), Ties: r.Chance(0.4), PaddedLeases: true, Aux: true, Weights: w, FarInstants: true}
 			if s%3 == 2 {
 				// many (route, target) groups at once (20, well over any top-N a store keeps
 				// per group in its statistics), more messages, statistics read often
